@@ -792,6 +792,39 @@ pub fn oracle(req: &Value) -> Vec<(String, String)> {
                     }
                 }
             }
+            // the same operations on independently seeded hash tables (every tree has its own RandomState)
+            let run = || -> Option<(String, Vec<String>, Option<String>)> {
+                catch_unwind(AssertUnwindSafe(|| {
+                    let mut t = RevisionTree::new();
+                    for o in a[1].as_array().unwrap() {
+                        let o = o.as_array().unwrap();
+                        match o[0].as_str().unwrap() {
+                            k @ ("a" | "u") => {
+                                let r = parse_rev(o[1].as_str().unwrap()).unwrap();
+                                let p = o[2].as_str().map(|s| parse_rev(s).unwrap());
+                                let st = o[3].as_bool().unwrap();
+                                if k == "a" { t.add(r, p, st); } else { t.unvalidated_add(r, p, st); }
+                            }
+                            "v" => t.validate(),
+                            "c" => t.commit(),
+                            "s" => t.unstage(),
+                            _ => {}
+                        }
+                    }
+                    (tree_state(&t), t.get_leafs().iter().map(|r| r.to_string()).collect::<Vec<_>>(), t.get_winner().map(|r| r.to_string()))
+                }))
+                .ok()
+            };
+            if let Some(first) = run() {
+                for _ in 0..7 {
+                    if let Some(again) = run() {
+                        if again != first {
+                            fails.push(("C18".into(), format!("the same tree operations on independently seeded hash tables end differently: winner {:?} leaves {:?} vs winner {:?} leaves {:?}", first.2, first.1, again.2, again.1)));
+                            break;
+                        }
+                    }
+                }
+            }
         }
         "merge" => {
             let m = a[1].as_array().unwrap().clone();
